@@ -62,6 +62,9 @@ func (b *tsdBlock) sample() map[string]any {
 // path, where +Inf means "no value in this slot": there the model treats a +Inf value as an empty slot.
 func genBlock(t *rapid.T, label string, api string) (*tsdBlock, string) {
 	n := genLen(t, label+"n")
+	if rapid.IntRange(0, 49).Draw(t, label+"huge") == 0 {
+		n = rapid.IntRange(401, 3600).Draw(t, label+"nh") // a whole family: 1h of 1s slots
+	}
 	mask, kind := genMask(t, label+"m", n)
 	start := genStart(t, label+"s", n)
 	var vals []uint64
@@ -392,8 +395,10 @@ func tsdBlockProperty(t *rapid.T) {
 func TestTSDBlock(t *testing.T) { rapid.Check(t, tsdBlockProperty) }
 
 func FuzzTSDBlock(f *testing.F) {
-	f.Add([]byte{0, 1, 2, 3, 4, 5, 6, 7, 8, 9, 10, 11, 12, 13, 14, 15, 16, 17, 18, 19, 20, 21, 22, 23, 24, 25, 26, 27, 28, 29, 30, 31})
-	f.Add([]byte("the quick brown fox jumps over the lazy dog; the quick brown fox jumps over the lazy dog"))
+	// rapid.MakeFuzz consumes 8 input bytes per draw: seeds must be several KiB to describe a block
+	f.Add(pseudoBytes(1, 16384))
+	f.Add(pseudoBytes(7, 32768))
+	f.Add(make([]byte, 16384))
 	f.Fuzz(rapid.MakeFuzz(tsdBlockProperty))
 }
 
